@@ -171,6 +171,23 @@ def run(ctx):
         ops, d = gen_history(rng, rng.choice([5, 15, 40]) if not ctx.thorough() else rng.choice([15, 40, 120]))
         hist.append(ops)
         dm += d
+    # directed histories: stores that must be refused AS A WHOLE (the model leaves the heap unchanged; C08_store_all_or_nothing)
+    b500 = "10" * 250
+    hist.append(["nb", "ec", "sb:0:1010", "sr:0:1", "sr:0:1", "end:0", "bp:2", "nb", "sr:4:1", "sr:4:1", "sr:4:1", "sb:4:11",
+                 "ss:4:3", "end:4", "sc:4:2", "end:4"])                       # slice/cell with 2 references into a builder holding 3
+    hist.append(["nb", "ec", "sb:0:" + b500, "sb:0:" + b500, "nb", "sb:2:" + "1" * 100, "sr:2:1", "end:2", "sc:0:3", "end:0",
+                 "bp:3", "ss:0:5", "end:0"])                                    # 100 bits + 1 reference into a builder holding 1000 bits
+    hist.append(["nb", "ec", "sr:0:1", "sr:0:1", "sr:0:1", "sr:0:1", "sr:0:1", "end:0", "sb:0:" + b500, "sb:0:" + b500, "sb:0:" + b500,
+                 "end:0", "tb:2", "sr:4:1", "end:4"])                          # a fifth reference; bits beyond 1023; to_builder of a full cell
+    for _ in range(ctx.n(40, 400)):
+        # random fill, then a store that cannot fit
+        nbits, nrefs = rng.choice([0, 500, 900, 1000, 1023]), rng.choice([0, 2, 3, 4])
+        ops = ["nb", "ec", "nb"] + ([f"sb:0:{cells.rand_bits(rng, nbits // 2)}", f"sb:0:{cells.rand_bits(rng, nbits - nbits // 2)}"] if nbits else [])
+        ops += ["sr:0:1"] * nrefs
+        vb, vr = rng.choice([1, 30, 200, 600]), rng.choice([0, 1, 2, 4])
+        ops += [f"sb:2:{cells.rand_bits(rng, vb)}"] + ["sr:2:1"] * vr + ["end:2", "bp:3"]
+        ops += [rng.choice(["sc:0:3", "ss:0:4"]), "end:0", rng.choice(["sc:0:3", "ss:0:4", "sr:0:3"]), "end:0"]
+        hist.append(ops)
     viol = {}
 
     def impl(ops):
